@@ -392,18 +392,26 @@ Definition has_op (g : cnet) (n : name) : bool :=
 Definition has_out (g : cnet) (n : name) : bool :=
   match lookup n (c_nodes g) with Some c => match c_out c with Some _ => true | None => false end | None => false end.
 
-(** the executor cache shared by all loaded nets of one context *)
-Record ecache := { ec_sort : option (list name); ec_orders : list (list name * list name) }.
-Definition empty_cache : ecache := {| ec_sort := None; ec_orders := [] |}.
-
 Definition names_eqb (a b : list name) : bool :=
   if list_eq_dec string_dec a b then true else false.
 
-Fixpoint lookup_order (k : list name) (l : list (list name * list name)) : option (list name) :=
+(** the executor cache shared by all loaded nets of one context: the name-sorted topological order,
+    and the execution order per (requested outputs that still have an operation, nodes whose output
+    is loaded) *)
+Definition okey := (list name * list name)%type.
+Record ecache := { ec_sort : option (list name); ec_orders : list (okey * list name) }.
+Definition empty_cache : ecache := {| ec_sort := None; ec_orders := [] |}.
+
+Definition okey_eqb (a b : okey) : bool := names_eqb (fst a) (fst b) && names_eqb (snd a) (snd b).
+
+Fixpoint lookup_order (k : okey) (l : list (okey * list name)) : option (list name) :=
   match l with
   | [] => None
-  | (k', o) :: r => if names_eqb k k' then Some o else lookup_order k r
+  | (k', o) :: r => if okey_eqb k k' then Some o else lookup_order k r
   end.
+
+(** frozenset(node for node in G.nodes if 'output' in G.nodes[node]), in canonical (sorted) form *)
+Definition loaded_names (g : cnet) : list name := sort_names (filter (has_out g) (map fst (c_nodes g))).
 
 (** the validity scan of get_execution_order over sort_order *)
 Fixpoint scan_nodes (g : cnet) (order : list name) : res unit :=
@@ -425,7 +433,8 @@ Definition get_execution_order (g : cnet) (cache : ecache) : res (list name * ec
   match needed with
   | [] => Ok ([], cache)
   | _ =>
-      match lookup_order needed (ec_orders cache) with
+      let key := (needed, loaded_names g) in
+      match lookup_order key (ec_orders cache) with
       | Some o => Ok (o, cache)
       | None =>
           do so <- match ec_sort cache with Some so => Ok so | None => sort_order g end;
@@ -434,7 +443,7 @@ Definition get_execution_order (g : cnet) (cache : ecache) : res (list name * ec
           let dep := filter (fun e => negb (has_out g (e_src e)) && negb (has_out g (e_dst e))) (c_edges g) in
           let exec := ancestors_incl dep needed in
           let o := filter (fun n => mem n exec) so in
-          Ok (o, {| ec_sort := Some so; ec_orders := ec_orders cache ++ [(needed, o)] |})
+          Ok (o, {| ec_sort := Some so; ec_orders := ec_orders cache ++ [(key, o)] |})
       end
   end.
 
